@@ -54,7 +54,7 @@ def worker(unit, emit):
     corp = lib.corpus(name, mod)
     if not corp:
         return
-    bases = lib.pick_bases(name, mod, lib.distinct_compact(name, mod, corp), p['bases'], rnd)
+    bases = lib.pick_bases(name, mod, lib.distinct_compact(name, mod, corp), p['bases'], rnd, corpus_items=corp)
     pres = lib.pick(corp, p['pres'], rnd)
     emit.count('modules')
     fopts = format_options(name, mod, bases[0])
